@@ -36,6 +36,8 @@ from workload.runtime import (NS_KEY, SimDrop, StaticSimLoader, build_data, fing
                               outcome, outcome_async)
 
 import liquid  # noqa: E402
+import liquid.builtin.loaders.file_system_loader as fsl_mod  # noqa: E402
+from simkit.fs import FaultPlan, FaultyPath, SimFS  # noqa: E402
 from liquid import (BoundTemplate, CachingChoiceLoader, CachingDictLoader, ChoiceLoader,  # noqa: E402
                     DictLoader, Environment)
 from liquid.builtin.loaders.mixins import CachingLoaderMixin  # noqa: E402
@@ -160,6 +162,15 @@ class LazyMains:
         self.done[i] = v
 
 
+_OPEN_FS = []      # sandboxes of the worlds built since the last close_worlds()
+PLAN = FaultPlan()  # storage fault plan of this process (only the history arms faults)
+
+
+def close_worlds():
+    while _OPEN_FS:
+        _OPEN_FS.pop().close()
+
+
 def build_world(es, loop_ref, lazy=False):
     # every named template ends by printing `tg`, an environment global that a request's own
     # globals (get_template(name, globals=...)) may override
@@ -181,6 +192,20 @@ def build_world(es, loop_ref, lazy=False):
         ld = StaticSimLoader(store, loop_ref, "fs-like", matter=True, namespaced=bool(ns_key))
     elif kind == "csim":
         ld = CachingSimLoader(store, loop_ref, "fs-like", **kw)
+    elif kind in ("cfs", "cchfs"):
+        # templates on (simulated) disk; cchfs: in front of a dict loader that knows every name too,
+        # with different text - a storage fault must never leave that fallback behind in the cache
+        fs = SimFS()
+        _OPEN_FS.append(fs)
+        for i, (nm, src) in enumerate(sorted(sources.items())):
+            fs.write("root/" + nm, src, i + 1)
+        fs.mkdir("root")
+        if kind == "cfs":
+            ld = liquid.CachingFileSystemLoader(fs.path("root"), auto_reload=es["auto_reload"], capacity=es["capacity"])
+        else:
+            ld = CachingChoiceLoader([liquid.FileSystemLoader(fs.path("root")),
+                                      DictLoader({nm: "FALLBACK:" + src for nm, src in sources.items()})],
+                                     auto_reload=es["auto_reload"], capacity=es["capacity"])
     else:
         names = sorted(sources)
         rest = {k: v for k, v in store.items() if k[1] in names[1::2]}
@@ -249,6 +274,13 @@ def evaluate_probe(probe):
 
 
 def _evaluate_probe(probe):
+    try:
+        return _evaluate_probe1(probe)
+    finally:
+        close_worlds()
+
+
+def _evaluate_probe1(probe):
     """Runs in a grandchild of the pristine zygote: no history whatsoever."""
     warnings.simplefilter("ignore")
     if probe["kind"] == "variation":
@@ -368,7 +400,8 @@ class C17:
     ]
     REQUIRED_REACH = ["reach.order_variation_compared", "reach.pristine_compared", "reach.render_after_same_template", "reach.render_after_same_env", "reach.clock_advanced_between",
                       "reach.twin_data", "reach.concurrent_same_template", "reach.aborted_render", "fault.cancel_landed",
-                      "reach.tz_equal_instants", "reach.implicit_env", "reach.fp_checks", "fault.drop_failed"]
+                      "reach.tz_equal_instants", "reach.implicit_env", "reach.fp_checks", "fault.drop_failed",
+                      "fault.fs_errno"]
 
     def process_init(self):
         fork.init_zygote(evaluate_probe)
@@ -424,7 +457,7 @@ class C17:
                 for _ in range(rng.randint(1, 2)):
                     mains.insert(rng.randint(0, len(mains)), rng.choice(BAD_MAINS))
                 mains.insert(rng.randint(0, len(mains)), rng.choice(DEEP_OK_MAINS))
-            lkind = rng.choice(["dict", "cdict", "sim", "csim", "choice", "cchoice"])
+            lkind = rng.choice(["dict", "cdict", "sim", "csim", "choice", "cchoice", "cfs", "cchfs"])
             envs.append({"recipe": recipe, "loader": lkind,
                          "ns_key": NS_KEY if lkind in ("sim", "csim", "choice", "cchoice") and rng.chance(0.4) else "",
                          "factory": rng.chance(0.3),
@@ -476,6 +509,11 @@ class C17:
                 # them in between
                 op["tglobals"] = rng.choice([None, None, {"tg": "T1"}, {"tg": "T2", "site": "TS"}, {}])
             op["fp"] = rng.chance(0.5)
+            if envs[e]["loader"] in ("cfs", "cchfs") and rng.chance(0.2):
+                # a transient storage error at the k-th storage call of this render (EMFILE, EIO, ...):
+                # the render may fail; what follows must behave as if it had never happened
+                op["fs_fault"] = {"at": rng.randint(1, 6), "kind": rng.choice(["open", "stat", "any"]),
+                                  "errno": rng.choice(["EMFILE", "EIO", "EACCES"])}
             if rng.chance(0.3):
                 op["call"] = "positional"
             if op["mode"] == "async" and rng.chance(0.12):
@@ -638,16 +676,28 @@ class C17:
                         t = await get_target_async(env, mains, op)
                         return await t.render_async(**data)
                     out[p["uid"]] = norm(await outcome_async(go()))
-        loop.run_sim(root())
+        try:
+            loop.run_sim(root())
+        finally:
+            close_worlds()
         return out
 
     def _run_here(self, sc):
         res = new_result()
         res["probes"] = []
-        with warnings.catch_warnings():
-            warnings.simplefilter("ignore")
-            CLOCK.set(clock.EPOCH_US)
-            self._run_world(sc, res)
+        saved_path = fsl_mod.Path
+        fsl_mod.Path = FaultyPath
+        FaultyPath.plan = PLAN
+        PLAN.faults, PLAN.actions = [], []
+        try:
+            with warnings.catch_warnings():
+                warnings.simplefilter("ignore")
+                CLOCK.set(clock.EPOCH_US)
+                self._run_world(sc, res)
+        finally:
+            fsl_mod.Path = saved_path
+            FaultyPath.plan = None
+            close_worlds()
         seen, out = set(), []
         for v in res["violations"]:
             if v["sig"] not in seen:
@@ -717,6 +767,11 @@ class C17:
             inv = loop.event("render.invoke")
             clock_at_invoke = CLOCK.us
             cancelled = False
+            nfired0 = len(PLAN.fired)
+            if op.get("fs_fault"):
+                f = dict(op["fs_fault"])
+                f["at"] = PLAN.calls + f["at"]
+                PLAN.faults.append(f)
             if mode == "sync":
                 if op.get("call") == "positional":     # render(data): ONE positional dict, no keyword arguments
                     got = outcome(lambda: get_target(env, mains, op).render(data))
@@ -764,6 +819,13 @@ class C17:
                 add("template-immutability", "environment-mutated", {"op": op})
             if cancelled:
                 bump(st, "fault.cancel_landed")
+                return
+            fired = [f for f in PLAN.fired[nfired0:] if f[0] != "action"]
+            PLAN.faults = []
+            if fired:
+                # an injected storage error hit this render: it may fail or fall back - not compared;
+                # every later render is
+                bump(st, "fault.fs_errno")
                 return
             if got[0] == "err":
                 bump(st, "reach.aborted_render")
